@@ -338,7 +338,14 @@ type ReplayStats struct {
 
 // Applicable tells whether a call is within the features a target advertises.
 func Applicable(target string, c Call) bool {
-	if target == "orefafs" {
+	if strings.HasSuffix(target, "-win") {
+		switch c.Op {
+		case "chown", "lchown", "fchown", "chmod", "fchmod", "setumask":
+			return false // documented as OS specific
+		}
+	}
+
+	if strings.HasPrefix(target, "orefafs") {
 		switch c.Op {
 		case "symlink", "readlink", "evalsymlinks", "chown", "lchown", "fchown":
 			return false
@@ -521,8 +528,36 @@ func ReplayEdges(f *Factory, in io.ReadSeeker, out io.Writer, shard, nshard int,
 	return st, err
 }
 
+// winRes maps an expected result to what a Windows-typed file system shows of it: the errno becomes "some
+// Windows error value", modes and owners are not compared (documented as OS specific).
+func winRes(r Res) Res {
+	switch r.Err {
+	case "ok", "EOF", "CLOSED", "NOHANDLE", "NEGOFF", "EAPPENDAT", "EINVALH", "PANIC", "DEADLOCK", "EINJECTED", "LINUX-ELOOP":
+	default:
+		r.Err = "WIN"
+	}
+
+	r.Info.M, r.Info.U, r.Info.G = 0, 0, 0
+
+	return r
+}
+
 func (f *Factory) replayEdge(idx int, e *Edge, names []string) (EdgeResult, error) {
 	r := EdgeResult{Idx: idx, Target: f.Target, How: "hist"}
+
+	if strings.HasSuffix(f.Target, "-win") {
+		e.Res = winRes(e.Res)
+		for i := range e.Hs {
+			e.Hs[i].M = 0
+		}
+
+		for i := range e.Alts {
+			e.Alts[i].Res = winRes(e.Alts[i].Res)
+			for j := range e.Alts[i].Hs {
+				e.Alts[i].Hs[j].M = 0
+			}
+		}
+	}
 
 	normCall(&e.Call)
 
@@ -576,7 +611,19 @@ func (f *Factory) replayEdge(idx int, e *Edge, names []string) (EdgeResult, erro
 		r.How = "built"
 		trace = nil
 
-		for i, c := range BuildCalls(e.Pre, s.NoIdm) {
+		bc := BuildCalls(e.Pre, s.NoIdm)
+		if e.Call.Op != "chdir" && len(e.Cwd.Parts) > 0 && len(e.Cwd.Parts[0]) > 0 && !strings.HasPrefix(e.Cwd.Parts[0], "GETWD") {
+			// the working directory belongs to the source state (unchanged by any call but chdir)
+			cd := Call{Op: "chdir", P: e.Cwd}
+			normCall(&cd)
+			bc = append(bc, cd)
+		}
+
+		for i, c := range bc {
+			if !Applicable(f.Target, c) {
+				continue
+			}
+
 			ev := s.Step(tr, i+1, c, names)
 			trace = append(trace, ev)
 
@@ -692,13 +739,18 @@ func (f *Factory) replayEdge(idx int, e *Edge, names []string) (EdgeResult, erro
 
 // adapt removes from an expected projection what a target cannot show (owners without an identity manager).
 func (f *Factory) adapt(es []Entry) []Entry {
-	if f.Target != "orefafs" {
+	win := strings.HasSuffix(f.Target, "-win")
+	if !strings.HasPrefix(f.Target, "orefafs") && !win {
 		return es
 	}
 
 	out := make([]Entry, len(es))
 	for i, e := range es {
 		e.U, e.G = 0, 0
+		if win {
+			e.M = 0
+		}
+
 		out[i] = e
 	}
 
